@@ -165,7 +165,7 @@ def run(ctx, chk):
     chk.extra["idiom_counts"] = counts
     chk.ob("C20.control", "verif_ctl_unguarded_product", ctl_hit, "controls/ctl_arith.c")
     # anchors
-    chk.floor("C20.anchors", "guarded products (idiom 1)", counts.get("1-guard-call", 0), 6)
+    chk.floor("C20.anchors", "guarded products (idiom 1)", counts.get("1-guard-call", 0), 3)   # (four growth sites may share one helper)
     chk.floor("C20.anchors", "subtractive guards (idiom 3)", counts.get("3-subtractive-guard", 0), 1)
     chk.floor("C20.anchors", "window terms (idiom 8)", counts.get("8-window", 0), 12)
     chk.floor("C20.anchors", "post-check / saturation (idiom 4)", counts.get("4-post-check", 0), 1)
@@ -307,8 +307,26 @@ def _ordinal(f, i):
     return n
 
 
+def _getter_load(prog, v):
+    """the field load behind a call of a trivial accessor (`cbor_map_size(item)`: one return, of a field read at a constant offset
+    of the parameter, nothing written, nothing else called but assertions), or None"""
+    if not (isinstance(v, Inst) and v.op == "call" and v.callee in prog.funcs):
+        return None
+    g = prog.funcs[v.callee]
+    if g.back_edges() or any(i_.op == "store" for i_ in g.all_insts()) or any((c_.callee or "").startswith(("cbor_", "_cbor_")) for c_ in g.calls()) or \
+            any(c_.callee is None for c_ in g.calls()):
+        return None
+    rets = g.returns()
+    if len(rets) != 1 or not rets[0].operands:
+        return None
+    r = strip_casts(rets[0].operands[0], ("bitcast", "zext", "sext", "trunc"))
+    return r if isinstance(r, Inst) and r.op == "load" else None
+
+
 def _field_of_load(prog, v):
     v = strip_casts(v, ("bitcast", "zext", "sext", "trunc"))
+    if isinstance(v, Inst) and v.op == "call":
+        v = _getter_load(prog, v) or v
     if isinstance(v, Inst) and v.op == "load":
         p = strip_casts(v.operands[0])
         if isinstance(p, Inst) and p.op == "getelementptr":
@@ -395,6 +413,8 @@ def classify_ir(prog, f, i):
         if st != "%struct." + struct:
             return False
         v_ = strip_casts(a, ("bitcast", "zext", "sext", "trunc"))
+        if isinstance(v_, Inst) and v_.op == "call":
+            v_ = _getter_load(prog, v_) or v_
         g_ = strip_casts(v_.operands[0])
         return g_.d.get("const_offset") == prog.field_offset(struct, field)
     if isinstance(b, Const) and (b.v == 1 or b.v == SIZE_MAX) and st is not None:
@@ -511,6 +531,35 @@ def classify_event(prog, pa, idx, e, root=None, failsig=()):
                     esz = am.operands[0]
                     if isinstance(esz, Const) and esz.v >= k:
                         return True, "5-under-allocation", ""
+        # 5 (deferred use): the multiple is formed next to the constructor call (both are arguments of one helper call) and nothing
+        # looks at it until the result has been tested: used only where the allocation succeeded, thrown away where it failed
+        cands5 = (("op", op, "i64", a, b), ("op", op, "i64", b, a))
+
+        def mentions5(t):
+            if t in cands5:
+                return True
+            return isinstance(t, tuple) and any(mentions5(x) for x in t if isinstance(x, tuple))
+        for pe in pa.events[:idx]:
+            if not (pe.kind == "call" and pe.ckind == "lib" and pe.callee.startswith("cbor_new_definite_") and v in pe.args):
+                continue
+            g = prog.fn(pe.callee)
+            if not any(isinstance(am.operands[0], Const) and am.operands[0].v >= k for am in g.calls("_cbor_alloc_multiple")):
+                continue
+            tested = None
+            for fi in range(e.nfacts, len(pa.facts)):
+                t_ = pa.facts[fi][0]
+                if t_ == pe.res or (t_[0] == "icmp" and t_[1] in ("eq", "ne") and pe.res in (t_[2], t_[3]) and ("c", 0) in (t_[2], t_[3])):
+                    tested = fi
+                    break
+            if tested is None:
+                continue
+            before = [x for x in pa.events[idx + 1:] if x.nfacts <= tested]
+            after = [x for x in pa.events[idx + 1:] if x.nfacts > tested]
+            used_before = any(mentions5(x.args) for x in before if x.kind in ("call", "store", "memcpy", "arith") and not (x.kind == "call" and x.depth < 0)) \
+                or any(mentions5(t_) for t_, _tr, _i in pa.facts[e.nfacts:tested + 1])
+            used_after = any(mentions5(x.args) for x in after if x.kind in ("call", "store", "memcpy", "arith")) or mentions5(pa.ret)
+            if not used_before and (st.known_nonnull(pe.res) or not used_after):
+                return True, "5-under-allocation", "multiple formed before the allocation result is tested, first looked at after it"
     # 3: subtractive guard
     if op == "add":
         for x, y in ((a, b), (b, a)):
